@@ -36,7 +36,9 @@ THEOREMS = ["C19_element_lookup_by_every_identifier", "C19_isotope_lookup_by_eve
             "C19_isotope_number_by_construction", "C19_wf_key_clauses_necessary",
             "C19_index_builders_refine_spec", "C19_rebuilding_indices_is_idempotent", "C19_lookups_are_case_blind",
             "C19_eq_characterised_by_fields", "C19_dir_order_is_a_sorted_permutation",
-            "C19_species_dict_with_deletion_is_a_finite_map", "C19_constructor_argument_policy"]
+            "C19_species_dict_with_deletion_is_a_finite_map", "C19_constructor_argument_policy",
+            "C19_int_to_string_injective", "C19_lookup_results_are_sound", "C19_lookup_by_number_is_sound",
+            "C19_hash_key_equality_is_an_equivalence", "C19_isotope_on_isotope_takes_parent_number"]
 
 HEADER = ("Require Import Cherab.Common.Qx.\nFrom Coq Require Import String.\n"
           "Require Import Cherab.Model.C19_Registry Cherab.Model.C19_Shape Cherab.Model.C19_Args Cherab.Model.C19_Check.\n")
@@ -498,6 +500,8 @@ def run(ctx):
         "Coq 8.16.1 kernel, vm_compute (no native_compute)",
         "harness/c19_translate.py (fail-closed translator of the module-level definitions of elements.pyx, 150 lines); "
         "what it cannot see (class bodies, index builders, lookup functions) is tied by the correspondence only",
+        "coq/Model/C11_Round.v round53 (binary64 round-to-nearest-even on rationals, gradual underflow, no overflow) taken as the "
+        "meaning of a Python float literal / + / - / * / / ; CPython's correctly rounded float() of decimal text",
         "harness/c19_shape.py (fail-closed translator of the method bodies: removes `cdef` lines, <Type> casts and argument types, parses "
         "with ast, 350 lines; the parts it does not translate are compared with a reference text kept in that file)",
         "harness/c19.py: case generator, identity -> attribute-name mapping, Coq literal printer; comparators in Model/C19_Check.v",
@@ -518,7 +522,7 @@ def run(ctx):
         "two Line objects built from the same arguments (distinct objects that are equal)",
     ]
     ctx.rebuild()
-    ctx.proofs("Properties.C19", THEOREMS, extra_modules=("Model.C19_Check", "Model.C19_Shape", "Model.C19_Args"))
+    ctx.proofs("Properties.C19", THEOREMS, extra_modules=("Model.C19_Check", "Model.C19_Shape", "Model.C19_Args", "Model.C19_Weights"))
 
     import cherab
     assert list(cherab.__path__) == [REPO + "/cherab"], cherab.__path__
@@ -608,6 +612,12 @@ def run(ctx):
                "Definition tie_line_dict := C19_lines_work_as_dict_keys rg table_ok.\n"
                "Print Assumptions tie_isotope_lookup.\n")
         p_tie = ctx.write_gen("Tie.v", tie)
+        p_weights = ctx.write_gen("Weights.v", HEADER + "Require Import Cherab.Model.C19_Weights Cherab.Gen.C19.Table.\n"
+                                  "(* weight expressions of the source text (literals as exact rationals) and the doubles of Table.v *)\n"
+                                  "Definition src_weights : list (wexpr * Q) := [\n  "
+                                  + ";\n  ".join("(%s, %s)" % (s_["w_expr"], qlit(s_["w"])) for s_ in stmts) + "].\n"
+                                  "Lemma weights_are_rounded_source_text : weights_ok src_weights table = true.\n"
+                                  "Proof. vm_compute. reflexivity. Qed.\n")
         t0 = time.time()
         ok_t, out_t = coqc(p_table, timeout=300)
         ctx.obligation("Gen/C19/Table.v compiles (%d definitions)" % len(stmts), "tie", ok_t, out_t)
@@ -649,11 +659,16 @@ def run(ctx):
             p_out = ctx.write_gen("outside.v", HEADER + "Require Import Cherab.Gen.C19.State.\nOpen Scope string_scope.\nOpen Scope Z_scope.\n"
                                   "Definition outs : list bool := [\n  " + ";\n  ".join(ctx.c19_outside) + "].\n"
                                   "Eval vm_compute in (Z.of_nat (List.length (filter (fun b => b) outs))).\n")
-            res = coqc_many([p_tie] + ([p_shape] if p_shape else []) + [p_out] + [f for f, _ in files], timeout=900)
+            res = coqc_many([p_tie, p_weights] + ([p_shape] if p_shape else []) + [p_out] + [f for f, _ in files], timeout=900)
+            ok_w, out_w = res[p_weights]
+            ctx.obligation("Gen/C19/Weights.v: every weight of the table is the binary64 round-to-nearest-even evaluation of its "
+                           "source expression (literals and operations rounded one by one) and within 2^-51 of the exact value",
+                           "tie", ok_w, out_w[-1200:])
+            tie_ok_w = ok_w
             v_out = parse_evals(res[p_out][1]) if res[p_out][0] else []
             dist["init_policy:model_makes_no_prediction(Outside)"] = int(v_out[0]) if v_out else -1
             dist["init_policy:calls"] = len(ctx.c19_outside)
-            tie_ok = finish_tie(*res[p_tie])
+            tie_ok = finish_tie(*res[p_tie]) and tie_ok_w
             if p_shape:
                 tie_ok = finish_shape(*res[p_shape]) and tie_ok
                 p_shape = None
@@ -720,11 +735,14 @@ def run(ctx):
         "distribution": dist,
         "registry": {"elements": len(impl.elements), "isotopes": len(impl.isotopes),
                      "definitions_translated": len(stmts) if stmts is not None else None},
-        "tolerance": {"all discrete outputs": "exact", "weights": "bit for bit (exact rational of the double); additionally the "
-                      "double is within 2^-50 relative of the exact decimal expression in the source"},
+        "tolerance": {"all discrete outputs": "exact", "weights": "bit for bit (exact rational of the double) between table and module; the table's double is "
+                      "EXACTLY the round-to-nearest-even replay of the source expression (Gen/C19/Weights.v), and within 2^-51 relative of the "
+                      "exact value of the text (bound (1+2^-53)^5 - 1 for <= 3 literals and 2 operations; measured maximum 2.2e-16)"},
         "partial": [],
         "compared_in_coq": {
             "Gen/C19/Tie.v": "load table = Some rg; wf rg = true (5 clauses, all species); every wf-dependent theorem instantiated with rg",
+            "Gen/C19/Weights.v": "all 374 weights: double in the table == binary64 RNE replay of the source expression (exact); "
+                                 "|double - exact text value| <= 2^-51 relative",
             "Gen/C19/Shape.v": "17 lemmas by reflexivity, for all arguments: hash tuples, ==/!= chains (Element, Isotope, Line), index key "
                                "expressions of both builders, the three lookup key expressions, constructor signatures and bodies "
                                "(incl. super().__init__ arguments) as translated from the current source = the model's functions; control flow, "
@@ -831,7 +849,7 @@ def build_cases(ctx, impl, stmts, rows, rng, quick, dist):
                  (el.atomic_number, None), (str(el.atomic_number), None)]
         if el_attr is not None:
             forms.append((("attr", el_attr), el))
-        for v, ob in (rng.sample(forms, 3) if quick else forms):
+        for v, ob in (rng.sample(forms, 2) if quick else forms):
             li("lookup_isotope:element+A", v, a, arg_obj=ob)
         if not quick or rng.random() < 0.5:
             li("lookup_isotope:object", ("attr", attr), rng.choice([None, a, 0]), arg_obj=i)
@@ -904,7 +922,7 @@ def build_cases(ctx, impl, stmts, rows, rng, quick, dist):
         fu = ("elem", el.name, el.symbol + "q", el.atomic_number, el.atomic_weight)      # unknown symbol
         li("fresh-object:lookup_isotope(unknown-symbol,A)", fu, a, arg_obj=impl.build(fu))
     # -- the same argument driven across the `if number:` guard and back (truthy -> falsy -> truthy) ----------------------
-    for attr, i in (impl.isotopes if not quick else rng.sample(impl.isotopes, 30)):
+    for attr, i in (impl.isotopes if not quick else rng.sample(impl.isotopes, 20)):
         el, a = i.element, i.mass_number
         v = rng.choice([el.symbol, el.name, i.symbol, i.name, el.atomic_number])
         for n in [a, 0, None, a, "", a + 1, False, np.int64(a), -0.0, a]:
@@ -1153,6 +1171,9 @@ def build_cases(ctx, impl, stmts, rows, rng, quick, dist):
 
     def init_case(cls, args):
         cname, ctor, _ = sigs[cls]
+        nested = (cls == 1 and len(args) == 5 and isinstance(args[2], tuple) and args[2] and args[2][0] == "attr"
+                  and type(real(args[2])) is impl.Isotope)
+        mcls = 3 if nested else cls                  # an Isotope built on an Isotope: separate constructor model
         try:
             o = ctor(*[real(a) for a in args])
         except tuple(EXC) as e:
@@ -1165,6 +1186,9 @@ def build_cases(ctx, impl, stmts, rows, rng, quick, dist):
                 return None
             if cls == 0:
                 got = "(BElement %s %s %s %s)" % (q(o.name), q(o.symbol), zlit(o.atomic_number), qlit(o.atomic_weight))
+            elif nested:
+                got = "(BNested %s %s %s %s %s %s)" % (q(o.name), q(o.symbol), zlit(o.atomic_number), qlit(o.atomic_weight),
+                                                       zlit(o.mass_number), sref(args[2]) if o.element is real(args[2]) else "(RAttr \"<?>\")")
             elif cls == 1:
                 er = find(o.element)
                 got = "(BIsotope %s %s %s %s %s %s)" % (q(o.name), q(o.symbol), zlit(o.atomic_number), qlit(o.atomic_weight),
@@ -1174,8 +1198,8 @@ def build_cases(ctx, impl, stmts, rows, rng, quick, dist):
                 got = "(BLine %s %s %s)" % (sref(er) if er else "(RAttr \"<?>\")", zlit(o.charge), tlist(o.transition))
             shown = repr(o)
         txt = "[%s]" % "; ".join(pv(a) for a in args)
-        add("init_policy:" + cname, "check_init en %s %s %s" % (zlit(cls), txt, got), call="%s(%s)" % (cname, ", ".join(repr(a) for a in args)), got=shown)
-        outside_exprs.append("init_outside en %s %s" % (zlit(cls), txt))
+        add("init_policy:" + cname + ("-on-Isotope" if nested else ""), "check_init en %s %s %s" % (zlit(mcls), txt, got), call="%s(%s)" % (cname, ", ".join(repr(a) for a in args)), got=shown)
+        outside_exprs.append("init_outside en %s %s" % (zlit(mcls), txt))
 
     n_policy = 0
     outside_exprs = ctx.c19_outside = []
@@ -1189,6 +1213,10 @@ def build_cases(ctx, impl, stmts, rows, rng, quick, dist):
                     args[1] = 0
                 init_case(cls, args)
                 n_policy += 1
+        if cls == 1:                                   # an Isotope as the element of an Isotope (accepted: subclass instance)
+            for ir in iso_refs:
+                init_case(1, ["x", "Sy", ir, rng.choice([2, True, 3.7, np.int64(5)]), rng.choice([2.5, 1, np.float32(1.5)])])
+                init_case(1, [rng.choice(pools["str"]), "Sy", ir, rng.choice(pools["int"]), rng.choice(pools["double"])])
         for _ in range(12 if quick else 150):          # two or three unusual arguments at once (order of the checks), wrong arity
             args = [rng.choice(pools[k] + good[k] * 3) for k in sig]
             r_ = rng.random()
@@ -1308,13 +1336,13 @@ def build_cases(ctx, impl, stmts, rows, rng, quick, dist):
                 le(kind, a_, arg_obj=arg_obj, record=False)
             else:
                 li(kind, a_, number, arg_obj=arg_obj, style=style, record=False)
-    rerun("history:second-call", 300 if quick else 3000)
+    rerun("history:second-call", 150 if quick else 3000)
     snap = (dict(getattr(mod, "_element_index", {})), dict(getattr(mod, "_isotope_index", {})))
     if hasattr(mod, "_build_element_index") and hasattr(mod, "_build_isotope_index"):
         mod._build_element_index()
         mod._build_isotope_index()
         ix["e"], ix["i"] = "ixe2", "ixi2"
-        rerun("history:after-rebuilding-indices", 400 if quick else 4000)
+        rerun("history:after-rebuilding-indices", 200 if quick else 4000)
         ix["e"], ix["i"] = "ixe", "ixi"
     after = (dict(getattr(mod, "_element_index", {})), dict(getattr(mod, "_isotope_index", {})))
     same = all(set(x) == set(y) and all(x[k] is y[k] for k in x) for x, y in zip(snap, after))
